@@ -387,6 +387,6 @@ LAWS = [
         rule='pairs of date-times from 1 January 1900 on: DAYS(a,b), a-b, N(a)-N(b), DATEVALUE(a)-DATEVALUE(b) agree with each other (also across the 1 March 1900 boundary); for pairs >= 1 March 1900 they equal the days between them (exact for whole days); comparisons of a date with integers on either side see its serial'),
 ]
 
-LEVEL_TEXT = 'The calendar-day quantifier is closed by exhaustive enumeration (all 2958464 days and all integer serials 61..2958465 through serialize_date/parse_date in both tiers; through parse() for every day in the thorough tier). Millisecond date-times, offsets and pairs are explored with Hypothesis.'
+LEVEL_TEXT = 'All orders of 2-3 conversions around serial 60; fresh interpreters under time zones with daylight saving; The calendar-day quantifier is closed by exhaustive enumeration (all 2958464 days and all integer serials 61..2958465 through serialize_date/parse_date in both tiers; through parse() for every day in the thorough tier). Millisecond date-times, offsets and pairs are explored with Hypothesis.'
 LEVEL_NOTE = 'Trusted: datetime.toordinal as the calendar, the reference serial in hx/ref/dates.py. Results outside 1 March 1900..9999-12-31 are excluded (counted) because the statement does not define them.'
 TECHNIQUE = 'exhaustive sweep of the finite calendar + Hypothesis round-trip/monotonicity/reference-model testing'
